@@ -127,6 +127,15 @@ CHECKS = [
              "followed by sentinel bytes, and must return everything else unchanged and consume exactly the datum; random cases are trace-validated (Trace_Skip).",
      "note": TLC_NOTE,
      "technique": "TLA+ spec (AvroSkip.tla refines AvroBinary.tla) checked by TLC + TLC-generated scenarios replayed with IgnoredAny / unit-variant targets + TLC trace validation"},
+    {"property_id": "C20", "level": "exploration", "design_ref": "DESIGN.md §6 C20",
+     "text": "TLC checks, for all 5292 shapes of an enumerated scope (root record with two fields over leaves / Option / Vec / map / recursion, a leaf record, "
+             "unit enum, newtype structs, a union enum, two instantiations of a generic), that the schema the derive's construction model (Derive!Build) yields "
+             "is valid Avro with one definition per fullname, fits the type (Derive!Fits) and lets an empty and a populated value serialize and decode back; the "
+             "as-found construction (root not registered) is refuted. Sampled enumerated shapes, a hand-written family set and seeded random type families are "
+             "generated as Rust source with #[derive(BuildSchema, Serialize, Deserialize)], compiled against /repo and exercised: TLC validates each derived "
+             "node vector (Trace_Derive) and each value's bytes (Trace_Codec / SerAllowed under the derived schema); typed round trips are compared with ==.",
+     "note": TLC_NOTE + " rustc / serde_derive are trusted; type families are sampled, not exhaustive.",
+     "technique": "TLA+ model of the derive construction + Fits relation checked by TLC; TLC-enumerated and random type shapes compiled to Rust and replayed; derived schemas and serialized values trace-validated by TLC"},
 ]
 
 _PENDING = "check not built yet in this revision of /verif (see DESIGN.md §10 build order); nothing is claimed"
